@@ -53,17 +53,31 @@ class Col:
 class Schema:
     """base tables: t<i> with a unique key column u<i>, int columns a<i>, c<i>, text column b<i>, shared-name column k"""
 
-    def __init__(self, rng, ntables=3, shared_k=True):
+    def __init__(self, rng, ntables=3, shared_k=True, literal=False):
         self.tables = []
         for i in range(ntables):
             cols = [Col(f"u{i}", INT, key=True), Col(f"a{i}", INT), Col(f"b{i}", TXT), Col("k" if shared_k else f"k{i}", INT)]
             if rng.random() < 0.5:
                 cols.append(Col(f"c{i}", INT))
             self.tables.append((f"t{i}", cols))
+        self.literals = set()
+        if literal:
+            self.tables.append(("r9", [Col("u9", INT, key=True), Col("a9", INT), Col("b9", TXT), Col("k9" if not shared_k else "k", INT)]))
+            self.literals.add("r9")
+
+    def literal_decl(self, db):
+        """`let r<i> = [{..}, ..]` for the literal relations (their rows are part of the program text)"""
+        out = []
+        for (name, cols), rows in zip(self.tables, db):
+            if name in self.literals:
+                out.append(f"let {name} = [" + ", ".join("{" + ", ".join(f"{c.name} = {prql_lit(v)}" for c, v in zip(cols, row)) + "}" for row in rows) + "]")
+        return "\n".join(out) + ("\n" if out else "")
 
     def decl(self):
         L = ["module default_db {"]
         for name, cols in self.tables:
+            if name in self.literals:
+                continue
             L.append(f"  let {name} <[{{" + ", ".join(f"{c.name} = {c.ty}" for c in cols) + "}]>")
         L.append("}")
         return "\n".join(L)
@@ -72,7 +86,7 @@ class Schema:
 def gen_db(rng, schema, maxrows=6, empty_p=0.12):
     db = []
     for name, cols in schema.tables:
-        n = 0 if rng.random() < empty_p else rng.randint(1, maxrows)
+        n = 0 if (rng.random() < empty_p and name not in schema.literals) else rng.randint(1, maxrows)
         us = rng.sample(range(1, 10), n)
         rows = []
         for r in range(n):
@@ -102,7 +116,13 @@ def sx_db(db):
 # expressions: (prql_text, sexp_text, type)
 # ---------------------------------------------------------------------------------------
 
+FUNCTION_DEFS = ("let fadd = p1 p2 -> (p1 + (p2 * 2))\nlet fpick = pc px py -> case [pc => px, true => py]\n"
+                 "let finc = px by:1 -> px + by\nlet ftop = rel -> (rel | take 2)\n")
+
+
 class ExprGen:
+    functions = False
+
     def __init__(self, rng, frame, depth=2, allow_null_lit=True):
         self.rng, self.frame, self.depth = rng, frame, depth
         self.allow_null = allow_null_lit
@@ -136,6 +156,19 @@ class ExprGen:
             if ty == BOOL:
                 return self.cmp(0)
             return self.lit(ty)
+        if ty == INT and ExprGen.functions and r.random() < 0.25:
+            k = r.random()
+            a, b = self.gen(INT, d - 1), self.gen(INT, d - 1)
+            if k < 0.3:
+                return (f"(fadd {a[0]} {b[0]})", f"( add {a[1]} ( mul {b[1]} ( lit 2 ) ) )", INT)
+            if k < 0.5:
+                c = self.gen(BOOL, d - 1)
+                return (f"(fpick {c[0]} {a[0]} {b[0]})", f"( ite {c[1]} {a[1]} {b[1]} )", INT)
+            if k < 0.65:
+                return (f"(finc {a[0]})", f"( add {a[1]} ( lit 1 ) )", INT)
+            if k < 0.85:
+                return (f"(finc by:{b[0]} {a[0]})", f"( add {a[1]} {b[1]} )", INT)
+            return (f"({a[0]} | finc by:{b[0]})", f"( add {a[1]} {b[1]} )", INT)
         if ty == INT:
             k = r.random()
             if k < 0.55:
@@ -199,11 +232,12 @@ class NotApplicable(Exception):
 
 class Gen:
     def __init__(self, rng, ntables=3, max_tr=6, nlets=None, kinds=None, declared=True, shared_k=True,
-                 append_inline=False, open_take=True, dup_names=True, forced=None):
+                 append_inline=False, open_take=True, dup_names=True, forced=None, literal=False, functions=False):
         self.rng = rng
         self.forced = forced
+        self.functions = functions
         self.shared_k, self.append_inline, self.open_take, self.dup_names = shared_k, append_inline, open_take, dup_names
-        self.schema = Schema(rng, ntables, shared_k)
+        self.schema = Schema(rng, ntables, shared_k, literal)
         self.max_tr = max_tr
         self.declared = declared
         self.fresh = 0
@@ -353,6 +387,8 @@ class Gen:
         return f"..{hi}", None, hi
 
     def tr_take(self, frame, sname):
+        if self.functions and self.rng.random() < 0.2:
+            return ("ftop", "( take - 2 )", frame)
         t, lo, hi = self.take_range()
         o = lambda x: "-" if x is None else str(x)
         return (f"take {t}", f"( take {o(lo)} {o(hi)} )", frame)
@@ -612,7 +648,9 @@ class Gen:
             name = f"l{i}"
             self.lets.append((name, frame, " | ".join(text), f"( ( {kind} {idx} ) ( " + " ".join(sx) + " ) )"))
         (kind, idx), frame, text, sx, frames = self.pipeline(forced=self.forced)
-        return Case(self.schema, self.declared, [(n, t, s) for n, _, t, s in self.lets], (kind, idx), text, sx, frames, self.trace)
+        c = Case(self.schema, self.declared, [(n, t, s) for n, _, t, s in self.lets], (kind, idx), text, sx, frames, self.trace)
+        c.functions = self.functions
+        return c
 
 
 class Case:
@@ -623,15 +661,17 @@ class Case:
         self.text, self.sx, self.frames, self.kinds = text, sx, frames, kinds
         self.db = None
 
+    functions = False
+
     def truncated(self, k):
         """keep `from` + the first k transforms"""
         c = Case(self.schema, self.declared, self.lets, self.src, self.text[:k + 1], self.sx[:k], self.frames[:k + 1], self.kinds)
-        c.db = self.db
+        c.db, c.functions = self.db, self.functions
         return c
 
     def with_db(self, db):
         c = Case(self.schema, self.declared, self.lets, self.src, self.text, self.sx, self.frames, self.kinds)
-        c.db = db
+        c.db, c.functions = db, self.functions
         return c
 
     def used_lets(self):
@@ -649,6 +689,7 @@ class Case:
     @property
     def prql(self):
         decl = self.schema.decl() if self.declared else ""
+        decl += "\n" + self.schema.literal_decl(self.db) + (FUNCTION_DEFS if self.functions else "")
         used = self.used_lets()
         return decl + "\n" + "".join(f"let {n} = ({t})\n" for i, (n, t, _) in enumerate(self.lets) if i in used) + "\n".join(self.text) + "\n"
 
@@ -692,7 +733,9 @@ def systematic_cases(maxlen, profile, seed=7, sample=None, kinds=ALL_KINDS):
             for attempt in range(3):
                 try:
                     g = Gen(rng, forced=list(seq), nlets=0, **profile)
+                    ExprGen.functions = g.functions
                     c = g.program()
+                    ExprGen.functions = False
                     c.db = gen_db(rng, g.schema)
                     c.seq = seq
                     out.append(c)
@@ -704,7 +747,11 @@ def systematic_cases(maxlen, profile, seed=7, sample=None, kinds=ALL_KINDS):
 
 def make_case(rng, **kw):
     g = Gen(rng, **kw)
-    c = g.program()
+    ExprGen.functions = g.functions
+    try:
+        c = g.program()
+    finally:
+        ExprGen.functions = False
     c.db = gen_db(rng, g.schema)
     return c
 
@@ -718,6 +765,8 @@ def run_sqlite(schema, db, sql):
     con = sqlite3.connect(":memory:")
     try:
         for (name, cols), rows in zip(schema, db):
+            if name.startswith("r9"):
+                continue        # a literal relation lives in the program text, not in the database
             con.execute(f"CREATE TABLE {name} (" + ", ".join(f'"{c}" {"INTEGER" if t == INT else "TEXT"}' for c, t in cols) + ")")
             if rows:
                 con.executemany(f"INSERT INTO {name} VALUES (" + ",".join("?" * len(cols)) + ")", rows)
